@@ -69,7 +69,7 @@ SelectionLaw ==
   LET sc == ScnOf(g)  gr == Grid(sc) IN
   \A i \in 1..Len(gr) :
      LET r == Eval(sc, 1, gr[i])  c == Chosen(g, gr[i]) IN
-     /\ ~r.err /\ ~r.unk
+     /\ r.why = {} /\ ~r.unk
      /\ IF c = -1 THEN Len(r.vec) = 0 ELSE Len(r.vec) = 1 /\ r.vec[1].val = I(100 + c)
 
 \* ---- emission filter
